@@ -28,7 +28,7 @@ func init() { core.Register("C04", func() core.Scenario { return c04{} }) }
 // scenarios (swarm style: every run gets its own mix).
 func baseSim(r *rand.Rand, hot []string) zzsim.Config {
 	cfg := zzsim.Config{AuxSeed: r.Uint64(), StepCap: 300000, MaxIdleMs: 3000}
-	switch r.IntN(4) {
+	switch r.IntN(6) {
 	case 0:
 		cfg.Policy = "uniform"
 	case 1, 2:
@@ -36,6 +36,11 @@ func baseSim(r *rand.Rand, hot []string) zzsim.Config {
 		cfg.Sticky = []int{50, 80, 95}[r.IntN(3)]
 	case 3:
 		cfg.Policy = "starve"
+	default:
+		// priorities with change points: Sticky is the percent chance of a
+		// demotion at a decision where the running goroutine could go on
+		cfg.Policy = "pct"
+		cfg.Sticky = []int{1, 3, 10}[r.IntN(3)]
 	}
 	cfg.MeanGap = []int{0, 20, 60, 200, 1000}[r.IntN(5)]
 	if len(hot) > 0 && r.IntN(2) == 0 {
